@@ -1,0 +1,75 @@
+//go:build verif
+
+package keeper
+
+// Contracts for the deductive checker in /verif (comment-only; compiled only with -tags verif).
+// C19, EVM module: the keeper accessors used by x/evm InitGenesis / ExportGenesis, verified against the raw KV-store model of
+// /verif/specs/c19evm_pre (prefix -> key -> value) and the iterator model of /verif/specs/c19it.
+
+/*@
+func (Keeper).Logger
+    inline
+
+// SetCode: a non-empty code is stored under the given hash bytes in the code store, an empty one deletes that key; nothing else changes
+func (*Keeper).SetCode
+    let p = glob_types_KeyPrefixCode
+    modifies ps_has, ps_val
+    ensures stored: len(code) != 0 ==> ps_has == upd(old(ps_has), p, upd(old(ps_has)[p], codeHash, true))
+            && ps_val == upd(old(ps_val), p, upd(old(ps_val)[p], codeHash, code))
+    ensures deleted: len(code) == 0 ==> ps_has == upd(old(ps_has), p, upd(old(ps_has)[p], codeHash, false)) && ps_val == old(ps_val)
+
+// SetState: a non-empty value is stored under the 32 key bytes in the storage of addr, an empty one deletes the slot
+func (*Keeper).SetState
+    let p = st_prefix(addr)
+    modifies ps_has, ps_val
+    ensures stored: len(value) != 0 ==> ps_has == upd(old(ps_has), p, upd(old(ps_has)[p], hash_bytes(key), true))
+            && ps_val == upd(old(ps_val), p, upd(old(ps_val)[p], hash_bytes(key), value))
+    ensures deleted: len(value) == 0 ==> ps_has == upd(old(ps_has), p, upd(old(ps_has)[p], hash_bytes(key), false)) && ps_val == old(ps_val)
+
+// GetCode: the bytes stored under the hash, empty when there are none
+func (*Keeper).GetCode
+    let p = glob_types_KeyPrefixCode
+    ensures present: ps_has[p][hash_bytes(codeHash)] ==> result == ps_val[p][hash_bytes(codeHash)]
+    ensures absent: !ps_has[p][hash_bytes(codeHash)] ==> len(result) == 0
+
+func (*Keeper).ForEachStorage
+    inline
+
+// GetAccountStorage: one State per entry of the storage of `address`, in store order, nothing dropped, nothing added;
+// key and value are the hex renderings of the stored 32-byte key and of the stored value
+func (Keeper).GetAccountStorage
+    let p = st_prefix(address)
+    let it = ret(KVStorePrefixIterator, 1, 0)
+    let seq = ps_enum(p, ps_has[p], ps_val[p])
+    requires keys32: forall k Bytes :: ps_has[p][k] ==> len(k) == 32
+    loop 1 invariant seq: iter_seq(it) == seq
+    loop 1 invariant pos: 0 <= iter_pos[it] && iter_pos[it] <= kv_len(seq) && len(storage) == iter_pos[it]
+    loop 1 invariant keys: forall i int :: 0 <= i && i < len(storage) ==> storage[i].Key == hash_hex(b2h(enum_rel(ps_has[p], i)))
+    loop 1 invariant values: forall i int :: 0 <= i && i < len(storage) ==> storage[i].Value == hash_hex(b2h(ps_val[p][enum_rel(ps_has[p], i)]))
+    ensures count: len(result) == enum_len(ps_has[p])
+    ensures entries: forall i int :: 0 <= i && i < len(result) ==>
+            result[i].Key == hash_hex(b2h(enum_rel(ps_has[p], i))) && result[i].Value == hash_hex(b2h(ps_val[p][enum_rel(ps_has[p], i)]))
+    allow frame
+
+// GetParams: the decoded params bytes, the legacy subspace when the key is empty
+func (Keeper).GetLegacyParams
+    inline
+func (Keeper).GetParams
+    ensures result == ite(len(pm_bz) == 0, evm_legacy_params, evm_params_dec(pm_bz))
+// SetParams: the params with the precompile list sorted are validated, encoded and stored under the params key
+// (the caller's precompile list is sorted in place: the slice shares its backing array)
+func (Keeper).SetParams
+    modifies pm_bz
+    let P = evm_params_dec(pm_bz)
+    ensures stored: result == nil ==> len(pm_bz) > 0 && P.ActivePrecompiles == sorted_strs(params.ActivePrecompiles)
+            && P.EvmDenom == params.EvmDenom && P.EnableCreate == params.EnableCreate && P.EnableCall == params.EnableCall
+            && P.ExtraEIPs == params.ExtraEIPs && P.ChainConfig == params.ChainConfig && P.AllowUnprotectedTxs == params.AllowUnprotectedTxs
+            && P.EVMChannels == params.EVMChannels
+    ensures checked: result == nil ==> evm_params_check(P) == nil
+    ensures rejected: result != nil ==> pm_bz == old(pm_bz)
+// WithChainID only touches the keeper object (chain id field); it panics on a malformed or conflicting chain id
+func (*Keeper).WithChainID
+    maypanic
+    modifies *k
+    ensures true
+@*/
